@@ -362,6 +362,8 @@ def run_case(spec, monitors=(), obs=False, log=False, baulk_log=False, sim_facto
         steps = [("max_time", T) for T in plan["T"]]
     elif plan["kind"] == "max_customers":
         steps = [("max_customers", plan["n"], plan.get("method", "Complete"))]
+    elif plan["kind"] == "mixed":
+        steps = [tuple(x) for x in plan["steps"]]
     elif plan["kind"] == "until_deadlock":
         steps = ([("max_time", plan["T_before"])] if plan.get("T_before") else []) + [("until_deadlock",)]
     Q.plan_steps = steps
